@@ -257,6 +257,12 @@ pub fn c15(ctx: &Ctx) {
         let script = Script { names: vec![], currents, pairs: vec![] };
         let r = play(&Cmd::new(&wd.path, &["encrypt", "p.bin", "-f", "alice", "-t", "bob", "-o", "c.ktl", "-k", "kr.txt"]), true, None, &script);
         ctx.eval();
+        // every scripted answer was typed - the last one being the RIGHT password - and the tool asked yet again: the
+        // right password was refused (this command asks for nothing else once the key is unlocked)
+        if (r.exit == Exit::Timeout || r.stuck.is_some()) && r.answered.len() == wrongs.len() + 1 && r.answered.last().map(|a| a.1 == pw).unwrap_or(false) {
+            ctx.violation("C15:tty:the-right-password-was-refused-at-the-terminal-after-wrong-attempts", json!({"typed": script.describe(), "run": r.describe().chars().take(600).collect::<String>(), "wrong_attempts_before": wrongs.len()}));
+            return;
+        }
         if inconclusive_if_stuck(ctx, "C15", &r) {
             return;
         }
